@@ -314,9 +314,9 @@ fn gen_matrix(k: u64, rng: &mut Rng) -> Matrix {
         let j = k - k / 6;
         let i = (j % SLOW_ROWS.len() as u64) as usize;
         let (p, d) = SLOW_ROWS[i];
-        // plain, TERM-ignoring and TERM-trapping commands rotate over the rows, shifted by one on
+        // plain, TERM-ignoring, TERM-trapping, stream-closing and stream-redirecting commands rotate over the rows, shifted by one on
         // every pass so that each row meets each kind
-        let trap_term = ((j + j / SLOW_ROWS.len() as u64) % 3) as u8;
+        let trap_term = ((j + j / SLOW_ROWS.len() as u64) % 5) as u8;
         // two rows out of five run with an unreachable skip code
         let (skip_code, skip_inline) = if i == 9 {
             (None, false)
@@ -667,6 +667,9 @@ impl C14 {
         let term = match case.trap_term {
             1 => "/sigterm-ignored",
             2 => "/sigterm-trapped",
+            // ... and so must one that has closed or redirected its output streams
+            3 => "/streams-closed",
+            4 => "/streams-to-dev-null",
             _ => "",
         };
         if case.skip_code.is_some() {
@@ -681,7 +684,12 @@ impl C14 {
             // the relation of the two limits is the structural cause only when the slow test case
             // itself was not reported as timed out
             let sig = if f.clause == "result-kind" && f.cause.contains("expected=timeout/got=pass") {
-                format!("C14/{}/{}/{rel}", f.clause, f.cause)
+                format!("C14/{}/{}/{rel}{}", f.clause, f.cause, if case.trap_term >= 3 { term } else { "" })
+            } else if case.trap_term >= 3 && f.clause == "exit-status" {
+                format!("C14/{}/{}/{fmt}{term}", f.clause, f.cause)
+            } else if case.trap_term >= 3 && f.clause == "result-kind" && f.cause.ends_with("/timed-out") {
+                // the slow command itself is not reported as timed out: how it escaped the limit
+                format!("C14/{}/{}{term}", f.clause, f.cause)
             } else {
                 format!("C14/{}/{}", f.clause, f.cause)
             };
@@ -770,7 +778,7 @@ impl Monitor for C14 {
         let nb = n_matrix(tier);
         let mut p = Plan::new(
             nb + tier.pick(200, 5000),
-            "(A) runs of 1-3 Markdown documents with fast commands (0 or 20-80 ms) under per-test limits {absent, 50 ms .. 1 h, equal to / just above the document limit} and document limits {default, 0, 200 ms .. 1 h} from front-matter and/or --timeout-seconds: every timeout_decision event judged logically; non-trivial = a decision with both limits defined; distinct = hash of (relation, per-test limit, document limit) per decision. (B) matrix per-test {absent, 300 ms, 30 s} x document limit {default, 0, 1 s front-matter, --timeout-seconds 1/0} x position {first, middle, last} x {sleep 8 (plain, or after the shell was told to ignore / to trap SIGTERM), instantaneous} restricted to rows where the smallest limit is <= 1 s (slow) or every limit >= 20 s (instantaneous), Markdown plus the command-line rows for Cram, plus rows in which a `wait: 2s` uses up a 1 s document limit between two instantaneous test cases (that test case or the next must be reported failed, nothing after it passed, exit 50): every row non-trivial",
+            "(A) runs of 1-3 Markdown documents with fast commands (0 or 20-80 ms) under per-test limits {absent, 50 ms .. 1 h, equal to / just above the document limit} and document limits {default, 0, 200 ms .. 1 h} from front-matter and/or --timeout-seconds: every timeout_decision event judged logically; non-trivial = a decision with both limits defined; distinct = hash of (relation, per-test limit, document limit) per decision. (B) matrix per-test {absent, 300 ms, 30 s} x document limit {default, 0, 1 s front-matter, --timeout-seconds 1/0} x position {first, middle, last} x {sleep 8 (plain, after the shell was told to ignore / to trap SIGTERM, or after it closed / redirected its output streams), instantaneous} restricted to rows where the smallest limit is <= 1 s (slow) or every limit >= 20 s (instantaneous), Markdown plus the command-line rows for Cram, plus rows in which a `wait: 2s` uses up a 1 s document limit between two instantaneous test cases (that test case or the next must be reported failed, nothing after it passed, exit 50): every row non-trivial",
         );
         p.chunk = 1;
         p.workers = tier.pick(28, 32);
@@ -784,9 +792,11 @@ impl Monitor for C14 {
             ("A:near-miss-tie".into(), tier.pick(5, 120)),
             ("kind:timeout".into(), tier.pick(8, 30)),
             ("B:wait:document-limit-only:markdown".into(), tier.pick(1, 3)),
-            ("B:slow-command/sigterm-ignored".into(), tier.pick(3, 10)),
+            ("B:slow-command/sigterm-ignored".into(), tier.pick(2, 6)),
+            ("B:slow-command/streams-closed".into(), tier.pick(2, 6)),
+            ("B:slow-command/streams-to-dev-null".into(), tier.pick(2, 6)),
             ("B:unreachable-skip-code".into(), tier.pick(4, 15)),
-            ("B:slow-command/sigterm-trapped".into(), tier.pick(3, 10)),
+            ("B:slow-command/sigterm-trapped".into(), tier.pick(2, 6)),
         ];
         p.assumptions = vec![
             "(A) rests on the timeout_decision / exec_end hooks; missing events are inconclusive".into(),
@@ -817,6 +827,12 @@ impl Monitor for C14 {
         let mut out = vec![];
         match case {
             Case::Matrix(m) => {
+                if m.skip_code.is_some() {
+                    let mut s = m.clone();
+                    s.skip_code = None;
+                    s.skip_inline = false;
+                    out.push(Case::Matrix(s));
+                }
                 // rows sleep: at most two cheaper variants
                 if m.wait {
                     if m.n > 2 || m.pos > 0 {
